@@ -182,7 +182,8 @@ def handle (op : String) (j : Json) : Except String Json := do
     let dec := match encode v >>= decode with
       | .ok d => Json.mkObj [("ok", pvToJson d)]
       | .error e => errToJson e
-    pure (Json.mkObj [("enc", enc), ("dec", dec), ("encodable", .bool (Encodable v)), ("shape", .bool (EncShape v))])
+    pure (Json.mkObj [("enc", enc), ("dec", dec), ("encodable", .bool (Encodable v)), ("shape", .bool (EncShape v)),
+      ("decodable", .bool (Decodable v)), ("norm", pvToJson (norm v))])
   | "cleanup" =>
     let flows ← (← (← j.getObjVal? "flows").getArr?).toList.mapM flowOfJson
     let idx ← (← (← j.getObjVal? "idx").getArr?).toList.mapM fun e => do
